@@ -1275,6 +1275,10 @@ class SyncObj(object):
                             self.__transport.send(node, message)
                             if node not in self.__connectedNodes:
                                 break
+                        # The break above only leaves the chunk loop. A read-only node that was lost
+                        # during one of the sends is gone from the index tables already.
+                        if node not in self.__connectedNodes:
+                            break
                     else:
                         message = {
                             'type': 'append_entries',
